@@ -14,7 +14,7 @@ RECURSIVE PickN(_, _, _)
 PickN(S, n, k) == IF n = 0 \/ S = {} THEN <<>>
                   ELSE LET x == Pick(S, R(k)) IN <<x>> \o PickN(S \ {x}, n - 1, k + 1)
 Blank == [kind |-> "", name |-> "", srcs |-> <<>>, libs |-> <<>>, ins |-> <<>>, nouts |-> 1,
-          always |-> FALSE, deps |-> <<>>, dist |-> TRUE, pch |-> FALSE, xdeps |-> <<>>, hdr |-> FALSE, mode |-> "copy"]
+          always |-> FALSE, deps |-> <<>>, dist |-> TRUE, pch |-> FALSE, xdeps |-> <<>>, cdeps |-> <<>>, hdr |-> FALSE, mode |-> "copy"]
 MkSrcs(P, k) ==
   LET fs == PickN({"s1", "s2", "s3"}, 1 + Below(R(k), 2), k + 1)
       gens == Kinds(P, {"step"})
@@ -34,10 +34,11 @@ MkDecl(P, i) ==
                             !.libs = PickN(libsA, Below(R(2), 3), 20), !.ins = hdrs]
       \* pch='<header name>' makes bfg9000 create one pch step per object: only with a single source
       xd == IF filesT # {} /\ Below(R(12), 5) = 0 THEN PickN(filesT, 1, 45) ELSE <<>>
-      exe == [exe0 EXCEPT !.xdeps = xd, !.hdr = (Below(R(13), 5) = 0), !.pch = (Len(exe0.srcs) = 1 /\ Below(R(11), IF hdrs # <<>> THEN 4 ELSE 16) < 3)] IN
+      cd == IF filesT # {} /\ Below(R(14), 4) = 0 THEN PickN(filesT, 1, 47) ELSE <<>>
+      exe == [exe0 EXCEPT !.xdeps = xd, !.cdeps = cd, !.hdr = (Below(R(13), 5) = 0), !.pch = (Len(exe0.srcs) = 1 /\ Below(R(11), IF hdrs # <<>> THEN 4 ELSE 16) < 3)] IN
   IF c <= 3 THEN exe
   ELSE IF c <= 6 THEN [Blank EXCEPT !.kind = (IF c = 6 THEN "shlib" ELSE "slib"), !.name = nm, !.srcs = MkSrcs(P, 10),
-                                    !.libs = PickN(libsA, Below(R(2), 2), 20), !.ins = hdrs, !.xdeps = xd,
+                                    !.libs = PickN(libsA, Below(R(2), 2), 20), !.ins = hdrs, !.xdeps = xd, !.cdeps = cd,
                                     !.hdr = (Below(R(13), 6) = 0)]
   ELSE IF c <= 8 THEN
        LET fins == PickN({"d1", "s3"}, Below(R(3), 2), 30)
